@@ -20,6 +20,7 @@ RULE = ("Hypothesis: bar-grid pieces of 1-6 planned bars with 1-4 tracks; meta_t
         "change, cut note or unequal track lengths). Distinct by case digest.")
 RULE = RULE + " Round h: the inputs were split into bars before with the other re-quantisation setting."
 RULE = RULE + " Round j: restated keys on later bar lines."
+RULE = RULE + " Round k: silent notes."
 ASSUMPTIONS = ["signature/key changes fall on bar boundaries of the meta track (the statement's precondition)",
                "no event sits exactly on the final tick of a track that ends on a bar line (would start one more, empty, bar)"]
 TIERS = {"quick": dict(shards=8, examples=1500), "thorough": dict(size=2, shards=16, examples=15000)}
@@ -66,7 +67,7 @@ def _case(draw, size=1):
                                  st.integers(0, total + 60)))
         multi = draw(st.integers(0, 3)) == 0
         lengths = DEFAULT_VALUES if requant else None
-        notes = draw(gens.wellformed_notes(channels=(0, 1) if multi else (i,), pitches=draw(gens.pitch_pool([(60, 62, 64)])), max_notes=7,
+        notes = draw(gens.wellformed_notes(channels=(0, 1) if multi else (i,), pitches=draw(gens.pitch_pool([(60, 62, 64)])), max_notes=7, silent=True,
                                            max_len=120, max_gap=90, start_max=max(0, dur), lengths=lengths))
         notes = [n for n in notes if n[3] <= dur]
         meta = (sig_events + key_events) if i == m else []
